@@ -376,3 +376,18 @@ Theorem tparams_reencode_limit : forall b, 65536 < Zlen b ->
   flatten (push_quic_transport_parameters [(0, PBytes b)]) = Err E_WRITE.
 Proof. exact TParamsReencode.tparams_reencode_limit. Qed.
 Print Assumptions tparams_reencode_limit.
+
+(* ---- F13 in general: extension_length of a known extension is never used ---- *)
+Theorem parsers_len_blind :
+  len_blind parse_client_hello_ext /\ len_blind parse_server_hello_ext /\ len_blind parse_nst_ext /\
+  len_blind parse_ee_ext /\ len_blind parse_cr_ext.
+Proof. exact TlsTotal.parsers_len_blind. Qed.
+Print Assumptions parsers_len_blind.
+
+Theorem ext_length_ignored_general : forall parse ch st ty len len' b,
+  len_blind parse -> parse ty len b <> None ->
+  0 <= ty < 65536 -> 0 <= len < 65536 -> 0 <= len' < 65536 ->
+  ext_item parse ch st (be_enc 2 ty ++ be_enc 2 len ++ b) =
+  ext_item parse ch st (be_enc 2 ty ++ be_enc 2 len' ++ b).
+Proof. exact TlsTotal.ext_length_ignored_general. Qed.
+Print Assumptions ext_length_ignored_general.
